@@ -34,8 +34,9 @@ RULE = ("closed-loop seeded histories (limit configs none/0/1/2/(3,2)/mixed; 2-3
         "contract-breaking events; a stream of adversarial multiaddress shapes) run on the real TransportManager and on the "
         "Lean model; a case is non-trivial if a connection was accepted or rejected and an event was emitted; distinct = "
         "distinct (ops, observations) transcripts by SHA-256; inbound connection ids allocated through the real "
-        "TransportHandle, `substream` operations (real TransportService::open_substream) in between; plus ~160 histories of the "
-        "real TcpConnection loop (tcploop area, focus C06: protocols shut down before the connection ends via every close path)")
+        "TransportHandle, `substream` operations (real TransportService::open_substream) in between; plus ~175 histories of the "
+        "real TcpConnection loop (tcploop area, focus C06: protocols shut down before the connection ends via every close path; "
+        "f-round: family `order` — a substream finishing negotiation against a full channel, then every exit path)")
 TRUSTED_BASE = ["Lean 4.33 kernel", "axioms: propext, Quot.sound, Classical.choice only",
                 "connection-task model Model/Conn/{Close,Loop,Permits}.lean tied to TcpConnection::start / ProtocolSet by the tcploop "
                 "area (adapter /repo/src/verif/tcploop.rs, checks/tcploop.py)",
